@@ -694,7 +694,8 @@ def refused_slot_stream(ctx, res):
         s.sub.b = cc.ListField(it, default=lambda: [])
         s.nums = cc.ListField(cc.IntField(), default=lambda: [])
         for source in ("map", "new configuration", "item of another list", "item of another configuration", "number"):
-            for label, do in (("l[5] = x", lambda c, x: c.a.__setitem__(5, x)), ("l[-9] = x", lambda c, x: c.a.__setitem__(-9, x)), ("l['0'] = x", lambda c, x: c.a.__setitem__("0", x)),
+            for label, do in (("l[5] = x", lambda c, x: c.a.__setitem__(5, x)), ("l[-9] = x", lambda c, x: c.a.__setitem__(-9, x)),
+                              ("l[len(l)] = x", lambda c, x: c.a.__setitem__(len(c.a), x)), ("l[-len(l)-1] = x", lambda c, x: c.a.__setitem__(-len(c.a) - 1, x)), ("l['0'] = x", lambda c, x: c.a.__setitem__("0", x)),
                               ("cfg['a.0'] = x", lambda c, x: c.__setitem__("a.0", x)), ("l[1.0] = x", lambda c, x: c.a.__setitem__(1.0, x))):
                 c1, c2 = s(), s()
                 for c in (c1, c2):
@@ -732,8 +733,42 @@ def refused_slot_stream(ctx, res):
                     res.violate("C06:rejected-list-op-changed-another-list:slot", "a replacement the list refused (no such slot) changed something: the offered configuration now "
                                 "reports a place in the refusing list although it still sits where it was", case)
 
+def refused_dict_default_stream(ctx, res):
+    """a typed dict still holding its declared default (the field is not user-defined): a REFUSED `setdefault` (missing key with an
+    unacceptable default value — also the implicit None against a required value field), a refused item assignment and a refused
+    `update` change nothing — not the entries, not their order, and not the field's user-defined status, at the root and nested"""
+    import cincoconfig as cc
+    from cincoconfig.support import is_value_defined
+    s = cc.Schema()
+    s.limits = cc.DictField(cc.StringField(), cc.IntField(min=0, required=True), default=lambda: {"cpu": 1})
+    s.svc.limits = cc.DictField(cc.StringField(), cc.IntField(min=0, required=True), default=lambda: {"cpu": 1, "io": 2})
+    s.svc.name = cc.StringField(default="n")
+    for owner_path in ("", "svc"):
+        for label, do in (("setdefault(missing)", lambda d: d.setdefault("mem")), ("setdefault(missing, bad)", lambda d: d.setdefault("mem", -1)), ("setdefault(missing, 'x')", lambda d: d.setdefault("mem", "x")),
+                          ("d[k] = bad", lambda d: d.__setitem__("mem", -1)), ("update(bad)", lambda d: d.update({"ok": 1, "mem": -1})), ("|= bad", lambda d: d.__ior__({"mem": "x"}))):
+            cfg = s()
+            owner = cfg if not owner_path else cfg[owner_path]
+            d = owner.limits
+            before = (list(d.items()), is_value_defined(owner, "limits"), cfg.to_tree())
+            try:
+                do(d)
+                raised = False
+            except Exception:  # noqa
+                raised = True
+            case = {"stream": "refused-dict-default", "owner": owner_path or "<root>", "op": label}
+            res.case(stable(case) if raised else None, kind="refused-dict-default:%s" % ("rejected" if raised else "accepted"))
+            after = (list(owner.limits.items()), is_value_defined(owner, "limits"), cfg.to_tree())
+            if raised and label.startswith("update"):
+                # entries accepted before the refused one may have been stored (a half-finished update is the built-in's behaviour too): only the status is asked
+                if after[1] != before[1] and after[0] == before[0]:
+                    res.violate("C06:proxy-changed-state:status", "a refused operation on a typed dict changed the field's user-defined status although no entry changed", case)
+            elif raised and after != before:
+                res.violate("C06:proxy-changed-state:status", "a refused operation on a typed dict that still holds its declared default changed the entries or the field's "
+                            "user-defined status", dict(case, before=repr(before[:2]), after=repr(after[:2])))
+
 def run(ctx, n_quick=200, n_thorough=6000):
     res = Result()
+    guard(res, "C06", refused_dict_default_stream, ctx, res)
     guard(res, "C06", refused_slot_stream, ctx, res)
     guard(res, "C06", subclass_refusals_stream, ctx, res)
     guard(res, "C06", refused_write_hook_stream, ctx, res)
